@@ -113,3 +113,13 @@ Proof.
   - apply Forall_app. split; [exact Hall | constructor; [exact H0 | constructor]].
   - destruct chain; discriminate.
 Qed.
+
+(* whole structures: every atom of the placed list has the Cartesian position and Cartesian tensor of its original *)
+Theorem structure_cart_preserved L L' nid atoms : lat_ok L -> lat_ok L' ->
+  map (cart L') (place_in_lattice L L' nid atoms) = map (cart L) atoms /\
+  map (fun a => ucart L' (read_U L' a)) (place_in_lattice L L' nid atoms) = map (fun a => ucart L (read_U L a)) atoms.
+Proof.
+  intros H H'. unfold place_in_lattice. rewrite !map_map. split; apply map_ext; intros a.
+  - apply cart_preserved. exact H'.
+  - apply read_ucart_preserved; assumption.
+Qed.
